@@ -3,6 +3,7 @@ package cmd
 import (
 	"fmt"
 	"strings"
+	"unicode/utf8"
 
 	"github.com/ErdemOzgen/blackdagger/internal/client"
 )
@@ -12,6 +13,8 @@ import (
 // The round trip over the three real functions must be the identity.
 func vfHarnessC20Params(n int) {
 	p := vfStringN("params", n)
+	// the API layer hands over decoded JSON strings: well-formed UTF-8 (any bytes under -bytes)
+	vfAssume(utf8.ValidString(p))
 	arg := fmt.Sprintf(`"%s"`, client.VfEscapeArg(p))
 	got := removeQuotes(arg)
 	if strings.Contains(p, "\r") || strings.Contains(p, "\n") {
@@ -23,6 +26,9 @@ func vfHarnessC20Params(n int) {
 
 func VerifHarness_C20_params3() {
 	vfHarnessC20Params(vfChoice("len", 4))
+}
+func VerifHarness_C20_params4() {
+	vfHarnessC20Params(vfChoice("len", 5))
 }
 func VerifHarness_C20_params6() {
 	vfHarnessC20Params(vfChoice("len", 7))
